@@ -39,7 +39,7 @@ func ReadFloatArray(r io.Reader, byteOrder binary.ByteOrder, array []float64) er
 // ReadByte reads a byte from r.
 func ReadByte(r io.Reader) (byte, error) {
 	var buf [1]byte
-	if _, err := r.Read(buf[:]); err != nil {
+	if _, err := io.ReadFull(r, buf[:]); err != nil {
 		return 0, err
 	}
 	return buf[0], nil
